@@ -56,7 +56,8 @@ def api_case(draw, tier):
                 for k in list(m):
                     if draw(st.integers(0, 2)) == 0:
                         del m[k]
-    if what == "add" and draw(st.sampled_from([False, False, True])):
+    nested = what == "add" and draw(st.sampled_from([False, False, True]))
+    if nested:
         # some existing values are nested mappings
         for key in ("obs_md", "samp_md"):
             for m in spec[key] or []:
@@ -81,11 +82,27 @@ def api_case(draw, tier):
         case["entries"] = draw(st.lists(
             st.dictionaries(st.sampled_from(KEYS), VALS, max_size=3),
             min_size=10, max_size=10))
+        if nested and draw(st.booleans()):
+            # ... and the mapping sets a nested value under a key that holds
+            # one already (set means replaced)
+            md_ = spec["obs_md" if case["axis"] == "observation"
+                       else "samp_md"] or []
+            held = sorted({k for m in md_ for k, v in m.items()
+                           if isinstance(v, dict)})
+            for e in case["entries"]:
+                for k in held[:2]:
+                    e[k] = {"a": 5}
     else:
         case["axis"] = draw(st.sampled_from(["sample", "observation",
                                              "whole"]))
         case["keys"] = draw(st.one_of(st.none(), st.lists(
             st.sampled_from(KEYS + ["x/y", "absent"]), max_size=4)))
+        if case["keys"] and spec["obs_md"] is not None and \
+                spec["samp_md"] is not None and draw(st.booleans()):
+            # a requested category that both axes carry
+            for key in ("obs_md", "samp_md"):
+                for q, m in enumerate(spec[key]):
+                    m[case["keys"][0]] = "on-both-axes-%d" % q
     return case
 
 
@@ -98,6 +115,12 @@ FIELD = st.one_of(
                      # quotes inside a value (all double quotes are dropped)
                      '5" pvc', 'said "ok" twice', '"', "it's"]),
     st.text("abcXYZ019 ._-;|", max_size=6).map(lambda s: s.strip()))
+# what a numeric column of a mapping file may hold (each is a float or an
+# int to Python, or neither - then the text stays)
+NUMERIC_TEXT = st.sampled_from([
+    "7", "-3", "2.5", "1e3", "007", "5.0", "1e-05", "2.5E+16", "-4.2E-07",
+    "inf", "1_0", "+4", "0x10", ".5", "5.", "12.0", "9007199254740993",
+    "1234567890123456789", "-9007199254740993", "1e400", "3,5", "1 000"])
 COLS = ["Treatment", "pH", "Days", "taxonomy", "KEGG", "Body Site", "Notes",
         # names that differ from another one only in case are other names
         "PH", "days", "Taxonomy"]
@@ -142,6 +165,14 @@ def file_case(draw, tier):
         if pool and draw(st.integers(0, 2)) == 0:
             opts[name] = draw(st.lists(st.sampled_from(pool), min_size=1,
                                        max_size=2, unique=True))
+    names = cols if header_override is None else header_override[1:]
+    for name in set(opts.get("int_fields", []) + opts.get("float_fields", [])):
+        for p_, nm in enumerate(names):
+            if nm != name:
+                continue
+            for r in rows:
+                if p_ < len(r["fields"]) and draw(st.integers(0, 3)) != 0:
+                    r["fields"][p_] = draw(NUMERIC_TEXT)
     inp = draw(st.sampled_from(["list", "handle", "path", "cli_json",
                                 "cli_json", "cli_hdf5"]))
     axis = draw(ops.AX)
